@@ -115,6 +115,50 @@ def lattice(quick):
     return out
 
 
+SPINFO_OLD = ("Block SPINFO\n     1   OtherGenerator\n     2   1.2.3\n     3   old warning of another program\n"
+              "     4   old error of another program\n")
+
+
+def stale_variants(base):
+    """pre-existing result blocks appended to an input that does not have them: each result entry alone
+    in its block / next to unrelated keys, all together, empty blocks, an SPINFO block with entries 1-4"""
+    have = {nm for nm, _, _ in C.split_blocks(base) if nm}
+    L = {"a": "Block LOWEN\n     6     1.11111111E-09   # stale\n",
+         "o": "Block LOWEN\n     1     3.14000000E-04   # other\n     6     1.11111111E-09   # stale\n     7     9.00000000E-01   # other\n"}
+    S = {"a": "Block SPhenoLowEnergy\n    21     3.33333333E-09   # stale\n",
+         "o": "Block SPhenoLowEnergy\n    20     2.22222222E-10   # other\n    21     3.33333333E-09   # stale\n    22     4.44444444E-15   # other\n"}
+    G0 = {"a": "Block GM2CalcOutput\n     0     5.55555555E-09   # stale\n",
+          "o": "Block GM2CalcOutput\n     0     5.55555555E-09   # stale\n     7     1.00000000E+00   # other\n"}
+    G1 = {"a": "Block GM2CalcOutput\n     1     6.66666666E-10   # stale\n",
+          "o": "Block GM2CalcOutput\n     7     1.00000000E+00   # other\n     1     6.66666666E-10   # stale\n"}
+    G01 = {"a": "Block GM2CalcOutput\n     0     5.55555555E-09   # stale\n     1     6.66666666E-10   # stale\n",
+           "o": "Block GM2CalcOutput\n     0     5.55555555E-09   # stale\n     7     1.00000000E+00   # other\n     1     6.66666666E-10   # stale\n"}
+    out = []
+    okL, okS, okG, okI = "LOWEN" not in have, "SPHENOLOWENERGY" not in have, "GM2CALCOUTPUT" not in have, "SPINFO" not in have
+    for f in ("a", "o"):
+        if okL:
+            out.append(("LOWEN6:" + f, L[f]))
+        if okS:
+            out.append(("SPheno21:" + f, S[f]))
+        if okG:
+            out.append(("GM2Calc0:" + f, G0[f]))
+            out.append(("GM2Calc1:" + f, G1[f]))
+        if okL and okS and okG:
+            out.append(("all:" + f, L[f] + S[f] + G01[f]))
+    if okL and okS and okG:
+        out.append(("empty-blocks", "Block LOWEN\nBlock SPhenoLowEnergy\nBlock GM2CalcOutput\n"))
+    if okI:
+        out.append(("SPINFO1-4", SPINFO_OLD))
+    return out
+
+
+def stale_combos(name, quick):
+    """5 formats x uncertainty x force; quick: one force setting per input (the writers do not depend on it):
+    force-output on for the shipped test points (many of them need it), off for examples and lattice points"""
+    forces = (0, 1) if not quick else ((1,) if name.startswith("tp:") else (0,))
+    return [(f, 2, 1, force, 0, unc, 1) for f in range(5) for force in forces for unc in (0, 1)]
+
+
 def inputs(quick):
     out = []
     for nm, typ in (("example.slha", "slha"), ("example.gm2", "gm2calc"), ("example.thdm", "thdm")):
@@ -122,6 +166,14 @@ def inputs(quick):
     for path, typ in test_point_table():
         out.append(("tp:" + os.path.basename(path), typ, open(path, encoding="latin-1").read()))
     out += lattice(quick)
+    out = [(nm, typ, text, None) for nm, typ, text in out]
+    # every base input crossed with pre-existing result blocks x 5 formats x force x uncertainty
+    for nm, typ, text, _ in list(out):
+        base = C.strip_config(text)
+        if not base.endswith("\n"):
+            base += "\n"
+        for tag, add in stale_variants(base):
+            out.append(("%s|stale:%s" % (nm, tag), typ, base + add, stale_combos(nm, quick)))
     return out
 
 
@@ -339,10 +391,24 @@ def check_detailed(typ, out, h, fails, stats):
 RESULT_LOC = {2: ("LOWEN", "6"), 3: ("SPHENOLOWENERGY", "21"), 4: ("GM2CALCOUTPUT", "0")}
 
 
-def strip_results(text, fmt, is_output):
-    """line list with the result entries of format `fmt` (and SPINFO 1-4) removed; headers of
-    blocks that hold nothing else are removed as well"""
-    loc = {RESULT_LOC[fmt], ("GM2CALCOUTPUT", "1"), ("SPINFO", "1"), ("SPINFO", "2"), ("SPINFO", "3"), ("SPINFO", "4")}
+def spinfo_lines(text):
+    return sorted((tk[0], " ".join(tk[1:])) for tk in C.block_entries(text, "SPINFO") if tk[0] in ("1", "2", "3", "4"))
+
+
+def written_locations(fmt, unc, text_in, out):
+    """(BLOCK, key) entries GM2Calc writes for this configuration; SPINFO 1-4 only if it reported something
+    (i.e. the SPINFO 1-4 content of the output is not the input's)"""
+    loc = {RESULT_LOC[fmt]}
+    if unc:
+        loc.add(("GM2CALCOUTPUT", "1"))
+    if spinfo_lines(text_in) != spinfo_lines(out):
+        loc |= {("SPINFO", k) for k in "1234"}
+    return loc
+
+
+def strip_results(text, loc):
+    """line list with the entries at the written locations removed; headers of the result blocks that
+    hold nothing else are removed as well"""
     names = {b for b, _ in loc}
     out = []
     for nm, hdr, body in C.split_blocks(text):
@@ -363,39 +429,65 @@ def strip_results(text, fmt, is_output):
 
 
 def check_slha(fam, c, text_in, out, h, fails, stats, res):
+    """strict reading of SLHA-type output: no key twice, result entries with first- and last-wins
+    semantics, the rest of the input echoed exactly once and unchanged"""
     fmt, loop, resum, force, verbose, unc, run = c
     blk, key = RESULT_LOC[fmt]
-    v = C.entry(out, blk, key)
+    # (a) no block of the output carries a key more often than the input did
+    cin, cout = C.key_counts(text_in), C.key_counts(out)
+    for (b_, k_), n_ in sorted(cout.items()):
+        if n_ > 1 and n_ > cin.get((b_, k_), 0):
+            vals = C.entries_all(out, b_, k_[0]) if len(k_) == 1 else []
+            fails.append(("%s:fmt%d:duplicate-entry:%s[%s]" % (fam, fmt, b_, ",".join(k_)),
+                          "output block %s carries key %s %d times (input: %d)%s"
+                          % (b_, ",".join(k_), n_, cin.get((b_, k_), 0), ": values %s" % vals if vals else "")))
+    stats["slha_outputs_key_unique_checked"] = stats.get("slha_outputs_key_unique_checked", 0) + 1
+    # (b) value / uncertainty: whatever a reader takes (first or last occurrence) must be the API number
+    vs = C.entries_all(out, blk, key)
     val = C.hval(h.get("val"))
-    if v is None:
+    if not vs:
         fails.append(("%s:fmt%d:value-missing" % (fam, fmt), "no %s[%s] in the output" % (blk, key)))
     else:
-        res["amu"] = v
-        if C.ndigits(v) != 9:
+        res["amu"] = vs[-1]
+        if C.ndigits(vs[-1]) != 9:
             stats["slha_digits_not_9"] = stats.get("slha_digits_not_9", 0) + 1
-        if val is not None and not C.agrees(v, val):
-            fails.append(("%s:fmt%d:value:loop%d:resum%d" % (fam, fmt, loop, resum),
-                          "%s[%s] = %s, API for loop order %d / resummation %d gives %r" % (blk, key, v, loop, resum, val)))
-    u = C.entry(out, "GM2CALCOUTPUT", "1")
-    had_u = C.entry(text_in, "GM2CALCOUTPUT", "1") is not None
+        for sem, v in (("first", vs[0]), ("last", vs[-1])):
+            if val is not None and not C.agrees(v, val):
+                fails.append(("%s:fmt%d:value:loop%d:resum%d" % (fam, fmt, loop, resum),
+                              "%s[%s] (%s occurrence of %d) = %s, API for loop order %d / resummation %d gives %r"
+                              % (blk, key, sem, len(vs), v, loop, resum, val)))
+                break
+    us = C.entries_all(out, "GM2CALCOUTPUT", "1")
+    us_in = C.entries_all(text_in, "GM2CALCOUTPUT", "1")
     if unc:
-        if u is None:
+        if not us:
             fails.append(("%s:fmt%d:uncertainty-missing" % (fam, fmt), "uncertainty requested but GM2CalcOutput[1] is absent"))
         else:
-            res["unc"] = u
+            res["unc"] = us[-1]
             uv = C.hval(h.get("unc"))
-            if uv is not None and not C.agrees(u, uv):
-                fails.append(("%s:fmt%d:uncertainty:loop%d" % (fam, fmt, loop),
-                              "GM2CalcOutput[1] = %s, API uncertainty at loop order %d = %r" % (u, loop, uv)))
-    elif u is not None and not had_u:
-        fails.append(("%s:fmt%d:uncertainty-unrequested" % (fam, fmt), "GM2CalcOutput[1] = %s written although uncertainty was not requested" % u))
-    # echo
-    a, b = strip_results(text_in, fmt, False), strip_results(out, fmt, True)
+            for sem, u in (("first", us[0]), ("last", us[-1])):
+                if uv is not None and not C.agrees(u, uv):
+                    fails.append(("%s:fmt%d:uncertainty:loop%d" % (fam, fmt, loop),
+                                  "GM2CalcOutput[1] (%s occurrence of %d) = %s, API uncertainty at loop order %d = %r"
+                                  % (sem, len(us), u, loop, uv)))
+                    break
+    elif us != us_in:
+        fails.append(("%s:fmt%d:uncertainty-unrequested" % (fam, fmt),
+                      "GM2CalcOutput[1] = %s although uncertainty was not requested (input had %s)" % (us, us_in)))
+    # (c) echo: everything but the written entries is the input, line by line, each line once
+    loc = written_locations(fmt, unc, text_in, out)
+    a, b = strip_results(text_in, loc), strip_results(out, loc)
     stats["echo_compared"] = stats.get("echo_compared", 0) + 1
     if a != b:
         d = next((i for i in range(min(len(a), len(b))) if a[i] != b[i]), min(len(a), len(b)))
         fails.append(("%s:fmt%d:echo" % (fam, fmt), "output minus result entries differs from the input at line %d: input %r, output %r"
                       % (d, a[d] if d < len(a) else None, b[d] if d < len(b) else None)))
+    # each written location holds exactly one line
+    for (b_, k_) in sorted(loc):
+        if b_ != "SPINFO":
+            n_ = len(C.entries_all(out, b_, k_))
+            if n_ > 1:
+                stats["written_entry_multiple"] = stats.get("written_entry_multiple", 0) + 1
 
 
 # ----------------------------------------------------------------------------
@@ -417,14 +509,15 @@ def expected_refusal(typ, c, h):
 
 
 def run_input(job):
-    idx, name, typ, text, cli, exe, root = job
+    idx, name, typ, text, combos, cli, exe, root = job
+    combos = combos or COMBOS
     d = os.path.join(root, "i%03d" % idx)
     os.makedirs(d, exist_ok=True)
     base = C.strip_config(text)
     fam = {"slha": "MSSM-slha", "gm2calc": "MSSM-gm2", "thdm": "THDM"}[typ]
     fails, stats, keys, results = [], {}, set(), {}
     paths, texts = [], []
-    for n, c in enumerate(COMBOS):
+    for n, c in enumerate(combos):
         t = base + C.config_block(c)
         pth = os.path.join(d, "c%03d.in" % n)
         with open(pth, "w", encoding="latin-1") as fh:
@@ -434,7 +527,7 @@ def run_input(job):
     if hs is None:
         return dict(name=name, infra="cli_api c15 failed on %s: %s" % (name, err))
     n_ref = n_ok = 0
-    for n, c in enumerate(COMBOS):
+    for n, c in enumerate(combos):
         fmt, loop, resum, force, verbose, unc, run = c
         h = hs[n]
         want = "%d,%d,%d,%d,%d,%d,%d" % c
@@ -443,7 +536,7 @@ def run_input(job):
         rc, out, errtxt = C.run_cli(cli, typ, paths[n])
         def F(key, what):
             fails.append((key, "%s [%s, config fmt=%d loop=%d resum=%d force=%d verbose=%d unc=%d running=%d]"
-                          % (what, name, fmt, loop, resum, force, verbose, unc, run), n))
+                          % (what, name, fmt, loop, resum, force, verbose, unc, run), c))
         if rc not in (0, 1):
             F("%s:fmt%d:exit-status" % (fam, fmt), "program ended with status %r, stderr %r" % (rc, errtxt[-200:]))
             continue
@@ -453,7 +546,10 @@ def run_input(job):
             has_out = bool(out.strip())
         else:
             blk, key = RESULT_LOC[fmt]
-            has_out = C.entry(out, blk, key) is not None and C.entry(out, "SPINFO", "4") is None
+            # an error is reported through SPINFO[4]; an SPINFO[4] that was already in the input is an echo
+            s4o, s4i = C.entries_all(out, "SPINFO", "4"), C.entries_all(texts[n], "SPINFO", "4")
+            s4line = lambda t: [" ".join(tk) for tk in C.block_entries(t, "SPINFO") if tk[0] == "4"]
+            has_out = C.entry(out, blk, key) is not None and (not s4o or s4line(out) == s4line(texts[n]))
         if refuse or not has_out:
             if refuse and not has_out and rc == 1:
                 n_ref += 1
@@ -515,7 +611,7 @@ def run_input(job):
                 fails.append(("%s:cross-format:%s" % (fam, what),
                               "formats disagree on the %s at loop=%d resum=%d force=%d running=%d: %s [%s]"
                               % (what, loop, resum, force, run, {k: v[:3] for k, v in vals.items()}, name),
-                              COMBOS.index((0, loop, resum, force, 0, 0, run))))
+                              (0, loop, resum, force, 0, 0, run)))
             if dct:
                 stats["cross_format_groups"] = stats.get("cross_format_groups", 0) + 1
         # the detailed headline is the 2-loop, resummed number of the other formats
@@ -530,16 +626,17 @@ def run_input(job):
                             fails.append(("%s:cross-format:detailed-vs-GM2CalcOutput" % fam,
                                           "detailed headline %s +- %s, GM2CalcOutput %s +- %s [%s force=%d running=%d]"
                                           % (dd["detailed_head"], dd.get("detailed_unc"), ss["amu"], ss.get("unc"), name, force, run),
-                                          COMBOS.index((1, 2, 1, force, verbose, unc, run))))
+                                          (1, 2, 1, force, verbose, unc, run)))
     shutil.rmtree(d, ignore_errors=True)
-    return dict(name=name, typ=typ, fails=fails, stats=stats, keys=sorted(keys, key=repr), refused=n_ref, checked=n_ok, infra=None)
+    return dict(name=name, typ=typ, fails=fails, stats=stats, keys=sorted(keys, key=repr), refused=n_ref, checked=n_ok,
+                ncombos=len(combos), infra=None)
 
 
 def run_all(ctx, ins):
     build.ensure("plain")
     cli, exe = build.cli("plain"), C.harness_exe()
     root = C.scratch("c15")
-    jobs = [(i, nm, typ, text, cli, exe, root) for i, (nm, typ, text) in enumerate(ins)]
+    jobs = [(i, nm, typ, text, combos, cli, exe, root) for i, (nm, typ, text, combos) in enumerate(ins)]
     res = []
     try:
         with mp.Pool(min(16, os.cpu_count() or 4)) as pool:
@@ -560,9 +657,9 @@ def run(ctx):
     res = run_all(ctx, ins)
     tot = {}
     never = []
-    bytext = {nm: (typ, text) for nm, typ, text in ins}
+    bytext = {nm: (typ, text) for nm, typ, text, _ in ins}
     for r_ in res:
-        ctx.evals(len(COMBOS))
+        ctx.evals(r_["ncombos"])
         ctx.add("cases_checked_against_api", r_["checked"])
         ctx.add("cases_refused_consistently", r_["refused"])
         if r_["checked"] == 0:
@@ -571,14 +668,16 @@ def run(ctx):
             tot[k] = tot.get(k, 0) + v
         for k in r_["keys"]:
             ctx.nontrivial(tuple(k))
-        for key, what, n in r_["fails"]:
+        for key, what, cmb in r_["fails"]:
             typ, text = bytext[r_["name"]]
-            ctx.fail(key, what, {"name": r_["name"], "type": typ, "text": text, "combo": list(COMBOS[n]), "key": key})
+            ctx.fail(key, what, {"name": r_["name"], "type": typ, "text": text, "combo": list(cmb), "key": key})
     for k, v in sorted(tot.items()):
         ctx.note(k, v)
     ctx.note("inputs", len(res))
+    ctx.note("inputs_with_preexisting_result_blocks", sum(1 for r_ in res if "|stale:" in r_["name"]))
+    ctx.note("runs_on_inputs_with_preexisting_result_blocks", sum(r_["ncombos"] for r_ in res if "|stale:" in r_["name"]))
     ctx.note("inputs_by_type", {t: sum(1 for r_ in res if r_["typ"] == t) for t in ("slha", "gm2calc", "thdm")})
-    ctx.note("inputs_refused_under_all_480", never)
+    ctx.note("inputs_refused_under_all_combinations", sorted({n.split("|")[0] for n in never}))
     ctx.sample({"input": res[0]["name"], "combination": "fmt,loop,resum,force,verbose,unc,running", "first": list(COMBOS[0]), "last": list(COMBOS[-1])})
     ctx.sample({"per_input_checked/refused": [(r_["name"], r_["checked"], r_["refused"]) for r_ in res[:8]]})
     if tot.get("detailed_percentages", 0) == 0 or tot.get("detailed_sum_lines", 0) == 0 or tot.get("echo_compared", 0) == 0:
@@ -590,15 +689,17 @@ def run(ctx):
     return ctx.finish(
         "inputs = 3 examples + every point of test/test_points.sh + %d lattice points; per input the full product "
         "5 formats x 3 loop orders x resummation x force x verbose x uncertainty x running = 480, GM2CalcConfig block rewritten; "
+        "plus every input x pre-existing result blocks (LOWEN[6], SPhenoLowEnergy[21], GM2CalcOutput[0], [1]: alone / next to other keys, "
+        "all together, empty blocks, SPINFO 1-4) x 5 formats x uncertainty (x force in the thorough tier); "
         "distinct = (input id, input family, format, loop order, resummation, uncertainty flag, problem flag, finiteness)"
-        % sum(1 for nm, _, _ in ins if nm.startswith("lat:")),
+        % sum(1 for nm, _, _, c_ in ins if nm.startswith("lat:") and c_ is None),
         {"combinations_per_input": len(COMBOS)})
 
 
 def replay(ctx, path):
     import json
     d = json.load(open(path))["data"]
-    res = run_all(ctx, [(d["name"], d["type"], d["text"])])
+    res = run_all(ctx, [(d["name"], d["type"], d["text"], None)])
     hits = [f for f in res[0]["fails"] if f[0] == d["key"]]
     if hits:
         print("replay: %s" % hits[0][1])
